@@ -290,7 +290,7 @@ fn nesting_probe(ctx: &Ctx) -> Vec<Value> {
 
 pub fn run(ctx: &Ctx) -> Outcome {
     // (a) totality
-    let max_len = ctx.tier.pick(6, 7);
+    let max_len = ctx.tier.pick(6, 8);
     let accs = strings::for_all(max_len, || (0u64, 0u64), |acc, s| {
         acc.0 += 1;
         let (accepted, v) = check_doc(s);
@@ -319,6 +319,41 @@ pub fn run(ctx: &Ctx) -> Outcome {
         ctx.machinery_error(format!("vacuity: only {} grammar documents accepted", accepted));
     }
 
+    // (b2) damaged torrents: every proper prefix and every single-byte deletion of every accepted
+    // grammar document (a .torrent that lost its tail or one byte): must be read or refused, never
+    // panic, and whatever is accepted must be safe to use
+    let accepted_docs: Vec<&Vec<u8>> = docs.iter().zip(res.iter()).filter(|(_, r)| r.0).map(|(d, _)| d).collect();
+    let dmg = core::par_map(&accepted_docs, |_| core::set_quiet_panics(true), |_, _, d| {
+        let mut n = 0u64;
+        let mut acc = 0u64;
+        let mut bad = vec![];
+        for cut in 0..d.len() {
+            let variants = [d[..cut].to_vec(), [&d[..cut], &d[cut + 1..]].concat()];
+            for v in variants {
+                n += 1;
+                let (a, viol) = check_doc(&v);
+                if a {
+                    acc += 1;
+                }
+                if let Some(x) = viol {
+                    if bad.len() < 2 {
+                        bad.push((x, v));
+                    }
+                }
+            }
+        }
+        (n, acc, bad)
+    });
+    let mut damaged = 0u64;
+    let mut damaged_accepted = 0u64;
+    for (n, acc, bad) in dmg {
+        damaged += n;
+        damaged_accepted += acc;
+        for ((class, summary), v) in bad {
+            ctx.violation(class, format!("(damaged copy of an acceptable torrent) {}", summary), json!({"kind": "doc", "hex": core::hex(&v), "text": core::show(&v)}));
+        }
+    }
+
     // (c) create_file round trips
     let dir = core::private_cwd("c17", "w");
     let mut created = 0;
@@ -333,9 +368,11 @@ pub fn run(ctx: &Ctx) -> Outcome {
     }
 
     let mut o = Outcome::new("exploration");
-    o.set("evaluations", json!(sigma + docs.len() as u64 + created));
+    o.set("evaluations", json!(sigma + docs.len() as u64 + created + damaged));
+    o.set("damaged_documents", json!(damaged));
+    o.set("damaged_documents_accepted", json!(damaged_accepted));
     o.set("distinct_nontrivial", json!(accepted + created));
-    o.set("rule", json!(format!("(a) every string over the C16 alphabet of length 0..={} through Metainfo::from_bencode (totality); (b) grammar documents: piece length x pieces x length x files (0..{} entries incl. malformed ones) in full product, announce/name/extra-key variants over a reduced layout alphabet, all distinct after dedup; on success fields are compared with the harness's reading and tracker_url/pieces_num/piece(i)/piece_length(i)/total_length/info_hash/file_piece_ranges are called under catch_unwind; (c) create_file for 7 boundary sizes x 3 names. Non-trivial = grammar documents accepted by from_bencode plus create_file cases.", max_len, if ctx.tier == core::Tier::Thorough { 3 } else { 2 })));
+    o.set("rule", json!(format!("(a) every string over the C16 alphabet of length 0..={} through Metainfo::from_bencode (totality); (b) grammar documents: piece length x pieces x length x files (0..{} entries incl. malformed ones) in full product, announce/name/extra-key variants over a reduced layout alphabet, all distinct after dedup; on success fields are compared with the harness's reading and tracker_url/pieces_num/piece(i)/piece_length(i)/total_length/info_hash/file_piece_ranges are called under catch_unwind; (b2) every proper prefix and every single-byte deletion of every accepted grammar document, same obligations; (c) create_file for 7 boundary sizes x 3 names. Non-trivial = grammar documents accepted by from_bencode plus create_file cases.", max_len, if ctx.tier == core::Tier::Thorough { 3 } else { 2 })));
     o.set("sigma_strings", json!(sigma));
     o.set("grammar_documents", json!(docs.len()));
     o.set("grammar_accepted", json!(accepted));
